@@ -411,11 +411,30 @@ def canonical_calls(func_node: ast.AST, self_aliases: bool = True):
         if isinstance(n, ast.AugAssign) and isinstance(n.target, ast.Name):
             mutated.add(n.target.id)
 
+    mutated_calls = mutated
+    # locals used as the receiver of a method call are objects with identity (graphs, solvers, queues): never substituted
+    receivers = {n.func.value.id for n in walk_no_nested(func_node) if isinstance(n, ast.Call) and isinstance(n.func, ast.Attribute) and isinstance(n.func.value, ast.Name)}
+
     def S(e, env):
         x = e
+        plain = {k: v for k, v in env.items() if not k.startswith("@")}
         for _ in range(3):
-            x = _subst(x, env)
-        return _tuple_index_simplify(x)
+            x = _subst(x, plain)
+        x = _tuple_index_simplify(x)
+        # store forwarding: d[k] read after `d[k] = v` in the same straight-line region
+        fw = {k: v for k, v in env.items() if k.startswith("@")}
+        if fw:
+            class F(ast.NodeTransformer):
+                def visit_Subscript(self, node):
+                    node = self.generic_visit(node)
+                    if isinstance(node.value, ast.Name) and isinstance(node.ctx, ast.Load):
+                        k_ = f"@{node.value.id}[{norm(node.slice)}]"
+                        if k_ in fw:
+                            import copy as _c
+                            return _c.deepcopy(fw[k_])
+                    return node
+            x = F().visit(x)
+        return x
 
     def bind(target, it_text, env):
         env = dict(env)
@@ -434,7 +453,7 @@ def canonical_calls(func_node: ast.AST, self_aliases: bool = True):
         env = dict(env)
         for st in stmts:
             if isinstance(st, ast.Assign) and len(st.targets) == 1 and isinstance(st.targets[0], ast.Name) and st.targets[0].id not in mutated and \
-                    isinstance(st.value, SUBSTITUTABLE):
+                    isinstance(st.value, SUBSTITUTABLE) and not (st.targets[0].id in receivers and isinstance(st.value, ast.Call)):
                 v = S(st.value, env)
                 if isinstance(st.value, ast.Call):
                     out.append((f"{st.targets[0].id} = {norm(v)}", cond, st.lineno))
@@ -443,24 +462,42 @@ def canonical_calls(func_node: ast.AST, self_aliases: bool = True):
                 tg = ", ".join(norm(S(t, env)) for t in st.targets)
                 out.append((f"{tg} = {norm(S(st.value, env))}", cond, st.lineno))
                 for t in st.targets:
+                    if isinstance(t, ast.Subscript) and isinstance(t.value, ast.Name) and isinstance(st.value, SUBSTITUTABLE):
+                        env[f"@{t.value.id}[{norm(S(t.slice, env))}]"] = S(st.value, env)
+                for t in st.targets:
                     for x in ast.walk(t):
                         if isinstance(x, ast.Name) and isinstance(x.ctx, ast.Store):
                             env.pop(x.id, None)
             elif isinstance(st, ast.AugAssign):
                 out.append((f"{norm(S(st.target, env))} {type(st.op).__name__}= {norm(S(st.value, env))}", cond, st.lineno))
                 if isinstance(st.target, ast.Name):
-                    env.pop(st.target.id, None)
+                    if st.target.id in env and st.target.id not in mutated_calls:
+                        env[st.target.id] = ast.BinOp(left=env[st.target.id], op=st.op, right=S(st.value, env))
+                    else:
+                        env.pop(st.target.id, None)
             elif isinstance(st, ast.Expr):
                 out.append((norm(S(st.value, env)), cond, st.lineno))
             elif isinstance(st, ast.If):
-                t = B.parse(S(st.test, env))
-                walk(st.body, env, B.mk_and([cond, t]))
-                walk(st.orelse, env, B.mk_and([cond, B.mk_not(t)]))
-                if st.body and isinstance(st.body[-1], (ast.Return, ast.Raise, ast.Continue, ast.Break)) and not st.orelse:
+                test_s = S(st.test, env)
+                t = B.parse(test_s)
+                e1 = walk(st.body, env, B.mk_and([cond, t]))
+                e2 = walk(st.orelse, env, B.mk_and([cond, B.mk_not(t)]))
+                j1 = bool(st.body) and isinstance(st.body[-1], (ast.Return, ast.Raise, ast.Continue, ast.Break))
+                j2 = bool(st.orelse) and isinstance(st.orelse[-1], (ast.Return, ast.Raise, ast.Continue, ast.Break))
+                if j1 and not st.orelse:
                     cond = B.mk_and([cond, B.mk_not(t)])
                 assigned = {x.id for s_ in st.body + st.orelse for x in ast.walk(s_) if isinstance(x, ast.Name) and isinstance(x.ctx, ast.Store)}
                 for a_ in assigned:
-                    env.pop(a_, None)
+                    # the value after the conditional: a conditional expression over the two branch values
+                    v1, v2 = e1.get(a_), e2.get(a_)
+                    if j1 and not j2 and v2 is not None:
+                        env[a_] = v2
+                    elif j2 and not j1 and v1 is not None:
+                        env[a_] = v1
+                    elif v1 is not None and v2 is not None and not j1 and not j2:
+                        env[a_] = v1 if ast.dump(v1) == ast.dump(v2) else ast.IfExp(test=test_s, body=v1, orelse=v2)
+                    else:
+                        env.pop(a_, None)
             elif isinstance(st, (ast.For, ast.AsyncFor)):
                 it_text = norm(S(st.iter, env))
                 walk(st.body, bind(st.target, it_text, env), cond)
